@@ -11,8 +11,9 @@ Definition gobs : Type := N * N * N * N * N * N.
 Definition xobs : Type := option cstate * option cstate.
 (* status code, gate returned, transfer, resource returned by Release *)
 Definition oobs : Type := N * bool * xobs * N.
-(* start, end, counter, resource, curr (subject, authority, position, in gates), gates by position *)
-Definition robs : Type := Z * Z * N * N * option (N * N * N * bool) * list (N * N * N).
+(* start, end, resource, curr (subject, authority, in gates), gates (subject, authority) in
+   order of open — absolute positions and the region counter are not compared *)
+Definition robs : Type := Z * Z * N * option (N * N * bool) * list (N * N).
 Definition sobs : Type := list gobs * option cstate * list robs.
 Definition iout : Type := oobs * sobs.
 
@@ -43,15 +44,15 @@ Definition obs_gate (shared : bool) (s : ctl) (h : N) : gobs :=
   end.
 
 Definition obs_region (r : region) : robs :=
-  (t_start (r_tr r), t_end (r_tr r), r_counter r, r_res r,
+  (t_start (r_tr r), t_end (r_tr r), r_res r,
    match r_curr r with
    | Some h => match find_gate h (r_gates r) with
-               | Some g => Some (g_subj g, g_auth g, g_pos g, true)
+               | Some g => Some (g_subj g, g_auth g, true)
                | None => None
                end
    | None => None
    end,
-   map (fun g => (g_subj g, g_auth g, g_pos g)) (r_gates r)).
+   map (fun g => (g_subj g, g_auth g)) (r_gates r)).
 
 Definition obs_gates (shared : bool) (s : ctl) : list gobs :=
   map (obs_gate shared s) (sortN (c_live s)).
